@@ -53,7 +53,7 @@ def copy_demo(d, wt):
             shutil.copy(os.path.join(d, fn), os.path.join(wt, fn))
 
 
-def confirm(d):
+def confirm(d, with_pytest=True):
     meta = load(d)
     name = os.path.basename(os.path.normpath(d))
     wt = worktree("c_" + name)
@@ -68,7 +68,7 @@ def confirm(d):
             raise RuntimeError("patch does not apply: " + out)
         rc1, out1 = sh(meta["demo_cmd"], cwd=wt, env=env, timeout=1800)
         res["demo_with_patch_rc"] = rc1
-        rc2, out2 = sh("/venv/bin/python -m pytest -q -p no:cacheprovider --timeout=900 --continue-on-collection-errors -x -n 8 "
+        rc2, out2 = (0, "skipped") if not with_pytest else sh("/venv/bin/python -m pytest -q -p no:cacheprovider --timeout=900 --continue-on-collection-errors -x -n 8 "
                        "--deselect test/test_examples.py --ignore=test/test_lpddr4.py --ignore=test/test_lpddr5.py 2>&1 | tail -15",
                        cwd=wt, env={"LITEDRAM_VERIF": "", "PYTHONPATH": wt}, timeout=3600)
         res["pytest_tail"] = out2[-1500:]
@@ -78,6 +78,33 @@ def confirm(d):
     print(json.dumps(res, indent=1))
     print("CONFIRMED" if ok else "NOT CONFIRMED", name, "(check the pytest tail: the stable baseline must still pass)")
     return ok
+
+
+def baseline(d):
+    """The repository's stable baseline (BASELINE.json stable_pass) must still pass with the patch applied."""
+    import xml.etree.ElementTree as ET
+    name = os.path.basename(os.path.normpath(d))
+    stable = set(json.load(open("/root/.vp/BASELINE.json"))["stable_pass"])
+    wt = worktree("b_" + name)
+    try:
+        rc, out = sh("git apply %s" % os.path.abspath(os.path.join(d, "patch.diff")), cwd=wt)
+        if rc:
+            raise RuntimeError("patch does not apply: " + out)
+        jx = os.path.join(wt, "junit.xml")
+        sh("/venv/bin/python -m pytest -q -p no:cacheprovider --timeout=1800 --continue-on-collection-errors -n 6 --junitxml=%s 2>&1 | tail -3" % jx,
+           cwd=wt, env={"LITEDRAM_VERIF": "", "PYTHONPATH": wt}, timeout=7200)
+        passed = set()
+        for tc in ET.parse(jx).getroot().iter("testcase"):
+            if not any(ch.tag in ("failure", "error", "skipped") for ch in tc):
+                passed.add("%s::%s" % (tc.get("classname"), tc.get("name")))
+        missing = sorted(stable - passed)
+    finally:
+        drop(wt)
+    res = dict(seeded=name, stable=len(stable), stable_passed=len(stable) - len(missing), missing=missing[:10])
+    print(json.dumps(res))
+    with open(os.path.join(d, "baseline_result.json"), "w") as f:
+        json.dump(res, f, indent=1)
+    return not missing
 
 
 def check(d, pids=None, tier="quick"):
@@ -110,6 +137,10 @@ def main():
     cmd = sys.argv[1]
     if cmd == "confirm":
         sys.exit(0 if confirm(sys.argv[2]) else 1)
+    if cmd == "confirm-demo":
+        sys.exit(0 if confirm(sys.argv[2], with_pytest=False) else 1)
+    if cmd == "baseline":
+        sys.exit(0 if baseline(sys.argv[2]) else 1)
     if cmd == "check":
         check(sys.argv[2], sys.argv[3:] or None)
     if cmd == "all":
